@@ -240,6 +240,7 @@ func Run(c *engine.Ctx) {
 	c.Sample(caseRec{KDCs: 2, Limit: 100, ReqLen: len(req), UDP: []string{"refuses", "answers"}, TCP: []string{"silent", "closes-early"}, RandomAns: []int{0, 0, 0, 0}})
 	c.Cov["rule"] = "every assignment of {answers, refuses, closes early, silent, KRB-ERROR, too-big (UDP) / partial reply (TCP)} to each (KDC, transport) endpoint for 1-3 KDCs (36 + 1,296 + 46,656) x udp_preference_limit {1, below the request size, above it} x every outcome of the random server order (all for 1-2 KDCs; default order for 3 KDCs in the quick tier, all 36 in the thorough tier); distinct = sampled (kdcs, limit, assignment, outcome) classes; evaluations = runs of sendToKDC"
 	loginLevel(c)
+	retainedReplies(c, req)
 }
 
 func safeRun(f func()) (p string) {
@@ -472,4 +473,77 @@ func cloneConfig(c *config.Config) *config.Config {
 		n.Realms = append(n.Realms, r)
 	}
 	return &n
+}
+
+// retainedReplies: every sequence of three exchanges over {UDP answer, TCP answer (UDP too big), UDP answer of the
+// second KDC} on one client; the byte slices returned by earlier exchanges are kept and must still hold what their
+// endpoint sent after the later exchanges (a reply must not live in a buffer the library reuses).
+func retainedReplies(c *engine.Ctx, req []byte) {
+	kinds := []string{"udp-kdc1", "tcp-kdc1", "udp-kdc2"}
+	var n int64
+	for a := 0; a < 3; a++ {
+		for b := 0; b < 3; b++ {
+			for d := 0; d < 3; d++ {
+				seq := []string{kinds[a], kinds[b], kinds[d]}
+				cfg := confFor(2, 1465)
+				cl := client.NewWithPassword(cworld.User, cworld.Realm, "x", cfg, client.DisablePAFXFAST(true))
+				var kept [][]byte
+				var want [][]byte
+				bad := ""
+				for i, k := range seq {
+					vnet.Reset()
+					vclock.Set(cworld.T0)
+					vrand.Script(nil)
+					tag := fmt.Sprintf("exchange-%d-%s-", i, k)
+					body := []byte(tag + strings.Repeat(string(rune('a'+i)), 300+50*i))
+					ans := func(string, string, []byte) []byte { return body }
+					refuse := &vnet.Endpoint{Behaviour: vnet.Refuse}
+					for kk := 1; kk <= 2; kk++ {
+						addr := fmt.Sprintf("kdc%d.test.gokrb5:88", kk)
+						vnet.Register("udp", addr, refuse)
+						vnet.Register("tcp", addr, refuse)
+					}
+					switch k {
+					case "udp-kdc1":
+						vnet.Register("udp", "kdc1.test.gokrb5:88", &vnet.Endpoint{Behaviour: vnet.Answer, Handler: ans})
+					case "udp-kdc2":
+						vnet.Register("udp", "kdc2.test.gokrb5:88", &vnet.Endpoint{Behaviour: vnet.Answer, Handler: ans})
+					case "tcp-kdc1":
+						vnet.Register("udp", "kdc1.test.gokrb5:88", &vnet.Endpoint{Behaviour: vnet.Answer, Handler: func(string, string, []byte) []byte { return krbErr(52) }})
+						vnet.Register("tcp", "kdc1.test.gokrb5:88", &vnet.Endpoint{Behaviour: vnet.Answer, Handler: ans})
+					}
+					var rb []byte
+					var err error
+					if pn := safeRun(func() { rb, err = cl.VerifSendToKDC(req, cworld.Realm) }); pn != "" || err != nil {
+						bad = fmt.Sprintf("exchange %d (%s) failed: %v %s", i, k, err, pn)
+						break
+					}
+					kept = append(kept, rb)
+					want = append(want, body)
+				}
+				n++
+				rec := map[string]interface{}{"sequence": seq}
+				if bad != "" {
+					c.Violate("retained", "retained-replies:exchange-fails", map[string]interface{}{"what": bad}, rec)
+					continue
+				}
+				for i := range kept {
+					if !bytes.Equal(kept[i], want[i]) {
+						c.Violate("retained", fmt.Sprintf("reply-changed-by-a-later-exchange:%s-then-%s", seq[i], seq[len(seq)-1]), map[string]interface{}{"exchange": i, "now_starts_with": string(kept[i][:min(40, len(kept[i]))])}, rec)
+						break
+					}
+				}
+				c.Distinct("retained/" + strings.Join(seq, ","))
+			}
+		}
+	}
+	c.Add("evaluations", n)
+	c.Cov["retained_reply_sequences"] = n
+}
+
+func min(a, b int) int {
+	if a < b {
+		return a
+	}
+	return b
 }
